@@ -3,7 +3,7 @@
    prod, unit, sumbool -> OCaml's); nat, N, Z, positive stay the extracted inductive types;
    no Extract Constant. *)
 From Coq Require Extraction ExtrOcamlBasic.
-From NV Require Model.Base Model.Diag Model.Errors Model.Cli Model.NumRe Model.Lexer Spec.TruePos Spec.Normalise Spec.LexProps.
+From NV Require Model.Base Model.Diag Model.Errors Model.Cli Model.NumRe Model.Lexer Spec.TruePos Spec.Normalise Spec.LexProps Model.Engine.
 Extraction Language OCaml.
 Set Extraction KeepSingleton.
 Extraction "../build/ml/nvmodel.ml"
@@ -14,4 +14,5 @@ Extraction "../build/ml/nvmodel.ml"
   Model.NumRe.fhex_match Model.NumRe.exp_ok Model.Lexer.peek1 Model.Lexer.peek2
   Spec.TruePos.all_positions Spec.TruePos.true_pos Spec.Normalise.normalise Spec.Normalise.is_splice
   Spec.LexProps.c09_ok Spec.LexProps.c10_ok Spec.LexProps.items_of_spans Spec.LexProps.c09_item_ok Spec.LexProps.c10_item_ok
-  Spec.LexProps.spans_tile.
+  Spec.LexProps.spans_tile
+  Model.Engine.run_file Model.Engine.chain Model.Engine.is_unrec.
